@@ -114,6 +114,48 @@ def run(ctx, replay=None):
         if info["steps"] < 5:
             raise MachineryError("coupled run %s made only %d steps (%s)" % (cfg_["tag"], info["steps"], info.get("error")))
 
+    grainlife_part(ctx)
+
+
+def grainlife_part(ctx):
+    """GrainLife.tla: life cycle of a GrainGrowthModel (load / drag / solve / reset), model-checked and trace-validated on real objects"""
+    from .. import gg_drv as G
+    import copy
+    consts = ["CONSTANTS", '  Dists = {"d1", "d2"}', "  Spans = {1, 2}", "  Drags = {0, 1}"]
+    cfg = T.write_cfg("grainlife_mc", ["SPECIFICATION Spec"] + consts + ["  MaxOps = %d" % (5 if ctx.tier == "quick" else 7), '  Mode = "fixed"',
+                                       "INVARIANT TypeOK", "PROPERTY ClockIsSumSinceReset", "PROPERTY ResetForgets"])
+    res = run_tlc("GrainLife", cfg, deadlock=False, timeout=900)
+    ctx.add_tlc(res, "GrainLife.tla: all histories of loads, drags, solves and resets")
+    if res.violated:
+        ctx.tlc_violation(res, "GrainLife")
+    cfgv = T.write_cfg("grainlife_vac", ["SPECIFICATION Spec"] + consts + ["  MaxOps = 4", '  Mode = "reset-keeps-drag"', "PROPERTY ResetForgets"])
+    rv = run_tlc("GrainLife", cfgv, deadlock=False, timeout=600)
+    if rv.violated != "ResetForgets":
+        raise MachineryError("vacuity: a reset that keeps the drag does not violate ResetForgets in GrainLife.tla")
+    a, b = G.replay("d1", [(2, 0)]), G.replay("d1", [(2, 1)])
+    if a[0].shape == b[0].shape and bool((abs(a[0] - b[0]) <= 1e-6 * abs(a[0]).max()).all()):
+        raise MachineryError("vacuity: the drag level of the driver does not change the evolved distribution")
+    hist = G.gen_histories(ctx.rng, ctx.tier)
+    traces = [G.run_history(h) for h in hist]
+    can = copy.deepcopy(next(t for t in traces if any(e.get("op") == "reset" for e in t[1:])))
+    for e in can[1:]:
+        if e.get("op") == "reset":
+            e["obs"]["clock"] = 3
+            break
+    reached, r = T.validate("GrainLife_Trace", consts + ["  MaxOps = 0", '  Mode = "fixed"'], traces + [can], "c18_grainlife")
+    ctx.add_tlc(r, "GrainLife_Trace over %d histories" % len(traces))
+    if r.violated or reached is None:
+        raise MachineryError("GrainLife_Trace validation failed")
+    if not any(f[0].startswith("C18:grain-clock") for f in reached[-1]["fails"]):
+        raise MachineryError("binding self-test failed: corrupted clock after reset accepted")
+    for h, ev, v in zip(hist, traces, reached):
+        ctx.replayed += len(ev) - 1
+        ctx.case(["grainlife"] + [list(o) for o in h], nontrivial=any(e.get("op") == "solve" for e in ev[1:]), sample={"history": h, "events": ev[1:3]} if len(ctx.samples) < 8 else None)
+        if v["l"] != len(ev) + 1 and ev[-1]["e"] != "exception":
+            ctx.violation("grainlife:trace-not-consumed", "grain growth history %s not consumed at event %d" % (h, v["l"]), {"history": h, "events": ev})
+        for f in v["fails"]:
+            ctx.violation("grainlife:%s" % f[0], "grain growth history %s: clause %s fails at call %d" % (h, f[0], f[1] - 1), {"history": h, "events": ev, "fail": f})
+
 
 if __name__ == "__main__":
     main(run, "C18", "model_checking")
